@@ -55,6 +55,10 @@ pub struct Scn {
     /// final max_wait_duration set before (true) or after max_concurrent_calls
     #[serde(default)]
     pub wait_first: bool,
+    /// the wrapped service takes only this many calls at a time: a caller may have to wait for
+    /// its readiness before it can call (arrival = the call, after readiness)
+    #[serde(default)]
+    pub inner_capacity: Option<u32>,
 }
 
 const PROBE_LAT: u64 = 20;
@@ -96,6 +100,7 @@ pub fn gen(rng: &mut Rng) -> Scn {
     }
     let pre = if max_wait.is_some() { *rng.pick(&[0u8, 0, 0, 1, 2, 3, 4]) } else { *rng.pick(&[0u8, 0, 0, 4]) };
     Scn {
+        inner_capacity: if !shared_handle && rng.chance(1, 6) { Some(rng.range(1, 3) as u32) } else { None },
         two_services,
         shared_handle,
         pre,
@@ -122,6 +127,7 @@ pub fn valid(s: &Scn) -> bool {
         && s.knobs.jumps.iter().all(|j| j.0 <= 500 && j.1 <= 200)
         && s.knobs.jumps.len() <= 3
         && s.pre <= 4
+        && s.inner_capacity.map(|c| c >= 1 && c <= 4 && !s.shared_handle).unwrap_or(true)
         && (s.max_wait.is_some() || s.pre == 0 || s.pre == 4)
         && s.callers.iter().all(|c| c.svc <= 1 && (s.two_services || c.svc == 0))
         && s.callers.iter().all(|c| if s.shared_handle { c.handle == 1 || c.handle == 2 } else { c.handle == 0 })
@@ -163,6 +169,12 @@ pub fn run(s: &Scn, ctx: &mut RunCtx, prefix: &'static str) -> RunOutput {
                 );
             }
         });
+        if let Some(c) = scn.inner_capacity {
+            world::with(|w| {
+                w.script.capacity.insert(0, c as i64);
+                w.script.capacity.insert(1, c as i64);
+            });
+        }
         let mut b = match scn.pre {
             1 => BulkheadLayer::builder().reject_when_full(),
             2 => BulkheadLayer::small(),
@@ -514,7 +526,10 @@ pub fn run(s: &Scn, ctx: &mut RunCtx, prefix: &'static str) -> RunOutput {
     let mut probes_ran = false;
     if s.probes > 0 && rep.tasks.len() == total_tasks {
         let probe_fp: Vec<_> = (n..total_tasks).filter_map(|i| first_poll[i].map(|f| (i, f))).collect();
-        if probe_fp.len() == s.probes as usize {
+        // (the burst rule needs the probes to arrive together; a wrapped service that lets them
+        // become ready one by one spreads them out)
+        let together = (n..total_tasks).filter_map(|i| arrive[i].map(|a| a.1)).collect::<std::collections::BTreeSet<_>>().len() <= 1;
+        if probe_fp.len() == s.probes as usize && together {
             probes_ran = true;
             let first_seq = probe_fp.iter().map(|p| p.1 .0).min().unwrap();
             let stuck = in_flight_before(&calls, 0, first_seq) as i64;
